@@ -75,6 +75,7 @@ type FloatV struct {
 	FP   *sym.Term // FP-sorted term (result of symbolic ieee arithmetic)
 	I    *sym.Term // int53 mode: signed BV64 integer value
 	NaN  *sym.Term // int53 mode: Bool, value is NaN (nil = false)
+	Frac *sym.Term // int53 mode: Bool, value lies strictly between I and I+1 (a non-integer constant or a copy of one; nil = false)
 	F32  bool
 }
 
